@@ -107,6 +107,20 @@ pub fn enumerating() -> bool {
     ENUM.with(|e| e.borrow().is_some())
 }
 
+thread_local! {
+    /// Set by `freerun.rs`: `sched::run*` called on this thread executes the program on free-running OS threads
+    /// (no hook, no schedule control) instead of under the deterministic scheduler.
+    pub static FREE: std::cell::Cell<bool> = const { std::cell::Cell::new(false) };
+}
+
+pub fn free_mode() -> bool {
+    FREE.with(|f| f.get())
+}
+
+pub fn set_free(on: bool) {
+    FREE.with(|f| f.set(on));
+}
+
 /// The first byte selects the schedule source; the rest of the case bytes parameterise it.
 pub fn make_chooser(src: &mut Src, nthreads: usize, horizon: usize, rep: &mut Report) -> Box<dyn Chooser> {
     if let Some(st) = ENUM.with(|e| e.borrow().clone()) {
@@ -117,6 +131,9 @@ pub fn make_chooser(src: &mut Src, nthreads: usize, horizon: usize, rep: &mut Re
         }
         rep.class("schedule:bounded-enumeration");
         return Box::new(Bounded { st });
+    }
+    if free_mode() {
+        rep.class("schedule:free-running-threads");
     }
     let which = if nthreads < 2 { 0 } else { src.below(5) };
     if which == 4 {
